@@ -64,11 +64,12 @@ func c12Signed[I signedInt](kind string, gen func() *rapid.Generator[I], bits in
 			}
 			seen[name] = true
 			g := gen()
+			style := len(cs) % 4
 			cs = append(cs, c12Case{top: bits == 64 && (th >= 1<<61 || th <= -(1<<61)), name: name, want: fmt.Sprint(want), depth: 4, prop: func(t *rapid.T, out *string) {
 				x := int64(g.Draw(t, "x"))
 				*out = fmt.Sprint(x)
 				if (dir == ">=" && x >= th) || (dir == "<=" && x <= th) {
-					t.Fatalf("beyond threshold: %d", x)
+					c12Fail(t, style, fmt.Sprint(x), int(x))
 				}
 			}})
 		}
@@ -102,11 +103,12 @@ func c12Unsigned[I unsignedInt](kind string, gen func() *rapid.Generator[I], bit
 		seen[th] = true
 		th := th
 		g := gen()
+		style := len(cs) % 4
 		cs = append(cs, c12Case{top: bits == 64 && th >= 1<<62, name: fmt.Sprintf("%s x>=%d", kind, th), want: fmt.Sprint(th), depth: 3, prop: func(t *rapid.T, out *string) {
 			x := uint64(g.Draw(t, "x"))
 			*out = fmt.Sprint(x)
 			if x >= th {
-				t.Fatalf("beyond threshold: %d", x)
+				c12Fail(t, style, fmt.Sprint(x), int(x))
 			}
 		}})
 	}
@@ -172,7 +174,7 @@ func c12Shrink(c *Ctx, cs c12Case, start []uint64, how string, devs int) {
 	first, buf, res := rapid.VerifShrink(tb, start, time.Hour, prop)
 	ExecEnd()
 	c.R.Evals++
-	if first.Kind != rapid.VerifFail {
+	if !c12Failed(first.Kind) {
 		return // not a failing start
 	}
 	c.Count("failing_starts", 1)
@@ -181,7 +183,7 @@ func c12Shrink(c *Ctx, cs c12Case, start []uint64, how string, devs int) {
 	rep := rapid.VerifRunBuf(tb, buf, false, prop)
 	c.Outcome(cs.name+" -> "+out, true)
 	replay := map[string]any{"engine": "shrink", "case": cs.name, "start_words": start, "how": how, "result_words": buf}
-	if rep.Kind != rapid.VerifFail || res.Kind != rapid.VerifFail {
+	if !c12Failed(rep.Kind) || !c12Failed(res.Kind) {
 		c.Violate(Violation{Sig: "C12 minimized-case-does-not-fail case=" + cs.name, Detail: fmt.Sprintf("start %s (%s): minimized buffer %s replays as %s", fmtWords(start), how, fmtWords(buf), kindName(rep.Kind)), Replay: replay, Devs: devs})
 		return
 	}
@@ -224,7 +226,7 @@ func c12Units(tier string, seed int64) []Unit {
 					e.Explore(c, func(src *Source, devs int) {
 						var out string
 						res := rapid.VerifRunSource(tb, src, false, func(t *rapid.T) { cs.prop(t, &out) })
-						if res.Kind == rapid.VerifFail {
+						if c12Failed(res.Kind) {
 							c12Shrink(c, cs, res.Data, "explorer-found failing stream", devs)
 						}
 					})
@@ -240,7 +242,7 @@ func c12Units(tier string, seed int64) []Unit {
 				for s := 0; s < ns; s++ {
 					var out string
 					res := rapid.VerifRunSeed(tb, uint64(seed)*977+uint64(s)+1, false, func(t *rapid.T) { cs.prop(t, &out) })
-					if res.Kind == rapid.VerifFail {
+					if c12Failed(res.Kind) {
 						c12Shrink(c, cs, res.Data, fmt.Sprintf("PRNG seed %d", uint64(seed)*977+uint64(s)+1), 9)
 					}
 				}
@@ -270,7 +272,7 @@ func c12Units(tier string, seed int64) []Unit {
 					c.R.Evals++
 					c.R.Transitions += int64(len(env.Invs))
 					v := log.Verdict()
-					if v.Class != "failed" {
+					if v.Class != "failed" && v.Class != "panic" {
 						continue
 					}
 					found++
@@ -366,7 +368,7 @@ func c12Units(tier string, seed int64) []Unit {
 						res := rapid.VerifRunSource(tb, src, false, func(t *rapid.T) { cs.prop(t, &out) })
 						c.R.States++
 						c.R.Transitions += int64(len(res.Data))
-						if res.Kind == rapid.VerifFail {
+						if c12Failed(res.Kind) {
 							c12Shrink(c, cs, res.Data, fmt.Sprintf("stream producing %d elements, pattern %d", k+ex, pi), ex)
 						}
 					}
@@ -378,7 +380,7 @@ func c12Units(tier string, seed int64) []Unit {
 				for s := 0; s < ns; s++ {
 					var out string
 					res := rapid.VerifRunSeed(tb, uint64(seed)*31+uint64(s)+1, false, func(t *rapid.T) { cs.prop(t, &out) })
-					if res.Kind == rapid.VerifFail {
+					if c12Failed(res.Kind) {
 						c12Shrink(c, cs, res.Data, fmt.Sprintf("PRNG seed %d", uint64(seed)*31+uint64(s)+1), 9)
 					}
 				}
@@ -400,3 +402,22 @@ func init() {
 		Budget:      map[string]time.Duration{"quick": 55 * time.Second, "thorough": 25 * time.Minute},
 	})
 }
+
+// c12Fail: the ways a threshold property fails in practice. The threshold properties of one kind
+// take turns: Fatalf, a panic and a run-time error whose texts name the drawn value (so every
+// smaller counterexample fails with another text, at the same place), and a non-fatal Errorf.
+func c12Fail(t *rapid.T, style int, x string, idx int) {
+	switch style {
+	case 0:
+		t.Fatalf("beyond threshold: %s", x)
+	case 1:
+		panic("beyond threshold: " + x)
+	case 2:
+		var empty []int
+		_ = empty[idx|1<<40] // index out of range [N] with length 0, N names the value
+	default:
+		t.Errorf("beyond threshold: %s", x)
+	}
+}
+
+func c12Failed(k int) bool { return k == rapid.VerifFail || k == rapid.VerifPanic }
